@@ -88,10 +88,69 @@ static std::string do_wsess(std::istringstream& is) {
     return "sched outcome=done steps=" + std::to_string(vshim::steps()) + " n=" + std::to_string(n) + " file=" + to_hex(b.data(), b.size()) + " trace=" + vshim::trace();
 }
 
+// object queue alone: one producer (n objects, then setFileSize(tellp)), one consumer (this thread) reading until null
+static std::string do_qsess(std::istringstream& is) {
+    Opts o; std::string tok; long cap = 1, n = 0, abortat = -1;
+    while (is >> tok) { if (tok.rfind("cap=", 0) == 0) cap = atol(tok.c_str() + 4); else if (tok.rfind("n=", 0) == 0) n = atol(tok.c_str() + 2);
+        else if (tok.rfind("abortat=", 0) == 0) abortat = atol(tok.c_str() + 8); else parse_opt(tok, o); }
+    vshim::configure(o.choices, o.policy, o.seed, getenv("VERIF_MAXSTEPS") ? atol(getenv("VERIF_MAXSTEPS")) : 400000);
+    std::string got; bool nullseen = false; long cnt = 0;
+    {
+        ObjectQueue<ObjectHeaderBase> q; q.setBufferSize(uint32_t(cap));
+        std::vector<ObjectHeaderBase*> made;
+        for (long i = 0; i < n; i++) { CanMessage* m = new CanMessage; m->id = uint32_t(i + 1); made.push_back(m); }
+        std::thread prod([&] { for (long i = 0; i < n; i++) q.write(made[size_t(i)]); q.setFileSize(q.tellp()); });
+        for (;;) {
+            if (abortat >= 0 && cnt == abortat) { q.abort(); }
+            ObjectHeaderBase* ob = q.read();
+            if (!ob) { nullseen = true; break; }
+            long idx = -1; for (size_t k = 0; k < made.size(); k++) if (made[k] == ob) idx = long(k) + 1;
+            got += (got.empty() ? "" : ",") + std::to_string(idx); cnt++;
+            if (cnt > n + 2) break;
+        }
+        prod.join();
+        for (auto* m : made) delete m;
+    }
+    return "sched outcome=done steps=" + std::to_string(vshim::steps()) + " got=" + (got.empty() ? "-" : got) + " null=" + (nullseen ? "1" : "0") + " trace=" + vshim::trace();
+}
+
+// in-memory stream alone: one producer appending containers of the given sizes (bytes 0,1,2,... mod 251), then
+// setFileSize(tellp); the consumer (this thread) issues the given reads and calls dropOldData after each
+static std::string do_usess(std::istringstream& is) {
+    Opts o; std::string tok; long buf = 8; std::vector<long> conts, reads;
+    auto lst = [](const std::string& v, std::vector<long>& out) { std::stringstream ss(v); std::string x; while (std::getline(ss, x, ',')) if (!x.empty()) out.push_back(atol(x.c_str())); };
+    while (is >> tok) { if (tok.rfind("buf=", 0) == 0) buf = atol(tok.c_str() + 4); else if (tok.rfind("conts=", 0) == 0) lst(tok.substr(6), conts);
+        else if (tok.rfind("reads=", 0) == 0) lst(tok.substr(6), reads); else parse_opt(tok, o); }
+    vshim::configure(o.choices, o.policy, o.seed, getenv("VERIF_MAXSTEPS") ? atol(getenv("VERIF_MAXSTEPS")) : 400000);
+    std::string out;
+    {
+        UncompressedFile u; u.setBufferSize(buf);
+        std::thread prod([&] {
+            unsigned v = 0;
+            for (long c : conts) { auto lc = std::make_shared<LogContainer>(); lc->uncompressedFile.resize(size_t(c)); for (auto& b : lc->uncompressedFile) b = char(v++ % 251);
+                lc->uncompressedFileSize = uint32_t(c); u.write(lc); }
+            u.setFileSize(u.tellp());
+        });
+        for (long r : reads) {
+            std::vector<uint8_t> b(size_t(r) + 1, 0xCD);
+            u.read(reinterpret_cast<char*>(b.data()), r);
+            long g = long(u.gcount());
+            out += (out.empty() ? "" : ",") + to_hex(b.data(), size_t(g > 0 ? g : 0)) + (u.good() ? "" : "!");
+            u.dropOldData();
+            if (!u.good()) break;
+        }
+        u.abort();
+        prod.join();
+    }
+    return "sched outcome=done steps=" + std::to_string(vshim::steps()) + " reads=" + (out.empty() ? "-" : out) + " trace=" + vshim::trace();
+}
+
 static std::string handle(const std::string& line) {
     std::istringstream is(line); std::string cmd; is >> cmd;
     if (cmd == "rsess") return do_rsess(is);
     if (cmd == "wsess") return do_wsess(is);
+    if (cmd == "qsess") return do_qsess(is);
+    if (cmd == "usess") return do_usess(is);
     return "bad-request";
 }
 
